@@ -116,3 +116,33 @@ Definition x_gem_helpers (t : str) : res (str * str * str) :=
                 segs_text (GemHelpers.canon_of sg))
   | Err e => Err e
   end.
+
+(* the Maven / NuGet bracket notation (C06): the parser model on the two schemes that use it *)
+From UV.Native Require MavenRange.
+From UV.Schemes Require Maven Nuget.
+From UV.Ref Require Maven.
+Definition mvn_text_cmp (a b : str) : comparison :=
+  UV.Schemes.Maven.maven_cmp {| UV.Schemes.Maven.m_text := a; UV.Schemes.Maven.m_parsed := UV.Ref.Maven.maven_parse a |}
+                             {| UV.Schemes.Maven.m_text := b; UV.Schemes.Maven.m_parsed := UV.Ref.Maven.maven_parse b |}.
+Definition text_constraints {V} (pr : V -> str) (r : res (list (Model.constr V))) : res (list (Model.constr str)) :=
+  match r with
+  | Ok cs => Ok (map (fun c => match c with Model.Star => Model.Star | Model.C o v => Model.C o (pr v) end) cs)
+  | Err e => Err e
+  end.
+Definition x_maven_native (nuget : bool) (s : str) : res (list (Model.constr str)) :=
+  if nuget then text_constraints UV.Schemes.Nuget.nuget_str (MavenRange.maven_native mvn_text_cmp _ UV.Schemes.Nuget.nuget_ctor s)
+  else text_constraints UV.Schemes.Maven.maven_str (MavenRange.maven_native mvn_text_cmp _ UV.Schemes.Maven.maven_ctor s).
+
+(* the relationship-string notations (deb, rpm): the constraints of from_natives before the sort of the range *)
+From UV.Native Require Relations.
+From UV.Schemes Require Debian Rpm.
+Definition x_relations (rpm : bool) (items : list str) : res (list (Model.constr str)) :=
+  if rpm then text_constraints UV.Schemes.Rpm.rpm_str (mapM (Relations.relation_constraint _ UV.Schemes.Rpm.rpm_ctor Relations.rpm_table Relations.rpm_strip) items)
+  else text_constraints UV.Schemes.Debian.deb_str (mapM (Relations.relation_constraint _ UV.Schemes.Debian.deb_ctor Relations.deb_table Relations.deb_strip) items).
+
+(* the nginx advisory notation and the openssl version list (C06) *)
+From UV.Native Require Nginx.
+From UV.Schemes Require Openssl.
+Definition x_nginx_native (s : str) : res (list (Model.constr str)) := text_constraints Semver.semver_str (Nginx.nginx_native s).
+Definition x_openssl_native (s : str) : res (list (Model.constr str)) :=
+  text_constraints UV.Schemes.Openssl.ossl_str (Nginx.openssl_native UV.Schemes.Openssl.ossl_ctor s).
